@@ -137,6 +137,12 @@ func (in *Interp) global(g *ssa.Global) *Value {
 			in.runPkgInit(g.Pkg)
 		}
 	}
+	// registered-error globals (*errorsmod.Error) left nil become distinct sentinels
+	if elem.String() == "*cosmossdk.io/errors.Error" {
+		if pv, ok := (*p).(*Value); ok && pv == nil {
+			*p = in.sentinelError(g.Pkg.Pkg.Path()+"."+g.Name(), g.Name()).(Iface).V
+		}
+	}
 	// error-typed globals of packages we do not initialise become sentinels
 	if _, isIface := elem.Underlying().(*types.Interface); isIface {
 		if iv, ok := (*p).(Iface); ok && iv.T == nil && iv.V == nil && elem.String() == "error" {
